@@ -52,9 +52,10 @@ var spin atomic.Bool
 // needs the lock.
 func SetSpinWait(on bool) { spin.Store(on) }
 
-// SpinWait reports whether a polling wait should retry at once instead of sleeping.
-func SpinWait() bool {
-	if !spin.Load() {
+// SpinWait reports whether a polling wait should retry at once instead of sleeping. Only the first
+// attempts spin: a wait for something that never happens (an absent CRD) must end up sleeping.
+func SpinWait(attempt int) bool {
+	if !spin.Load() || attempt > 20000 {
 		return false
 	}
 	runtime.Gosched()
